@@ -68,3 +68,9 @@ def run(ctx, config='rel-all'):
         from .. import runner
         from . import c14
         c14.run(runner.Sub(ctx, 'R4', 'C14', only={'O4'}), config)
+    # ---- R5 'the arena is still usable': arena state (finger, chunk list, counters) is written only in bodies the normal-path
+    # analysis enters - a rewind performed by a scope guard's destructor while an initialiser closure unwinds is judged by no
+    # finger obligation (it may hand out again what the closure allocated before it panicked)
+    from .. import arena as _arena
+    from . import unwindstate
+    unwindstate.check(ctx, ctx.db(config), _arena.analyse(ctx, config), 'R5')
